@@ -304,28 +304,33 @@ def _norm(c):
     return c
 
 
-def pykey(c: Any):
+def pykey(c: Any, prog=None):
     """Python-equality key of the value described by a canon (for set semantics)."""
     tag = c[0]
+    if tag == "enum" and prog is not None:
+        e = next(e for e in prog["enums"] if e["name"] == c[1])
+        if e.get("base", "plain") in ("int", "str"):  # mixin enum members equal (and hash as) their value
+            val = dict((m, x) for m, x in e["members"])[c[2]]
+            return ("num", val) if isinstance(val, (int, float)) else ("str", val)
     if tag in ("bool", "int", "float"):
         return ("num", c[1])
     if tag in ("str", "none", "undef"):
         return (tag, c[1] if len(c) > 1 else None)
     if tag == "tuple":
-        return ("tuple", tuple(pykey(x) for x in c[1]))
+        return ("tuple", tuple(pykey(x, prog) for x in c[1]))
     if tag == "frozenset" or tag == "set":
-        return ("fs", frozenset(pykey(x) for x in c[1]))
+        return ("fs", frozenset(pykey(x, prog) for x in c[1]))
     if tag == "enum":
         return ("enum", c[1], c[2])
     if tag == "nt":
-        return pykey(c[1])
+        return pykey(c[1], prog)
     return ("other", _sortkey(c))
 
 
-def make_set(tag: str, items: List[Any]) -> Any:
+def make_set(tag: str, items: List[Any], prog=None) -> Any:
     seen = {}
     for c in items:
-        k = pykey(c)
+        k = pykey(c, prog)
         if k in seen:
             if seen[k] != c:
                 raise Unspecified("python-equal set elements of different classes")
@@ -543,7 +548,7 @@ class Model:
                 return ["list", vals], None
             if k == "vartuple":
                 return ["tuple", vals], None
-            return make_set(k, vals), None
+            return make_set(k, vals, self.prog), None
         if k == "tuple":
             if not isinstance(d, list):
                 if self.o.coerce:
@@ -584,7 +589,7 @@ class Model:
             msgs = check_constraints(c, d)
             if msgs or children:
                 return None, Err(msgs, children)
-            keys = [pykey(i[0]) for i in items]
+            keys = [pykey(i[0], self.prog) for i in items]
             if len(set(keys)) != len(keys):
                 raise Unspecified("colliding mapping keys")
             return ["dict", sorted(items, key=_sortkey)], None
@@ -673,7 +678,7 @@ class Model:
             return None, Err(fuzzy=True)
         first = accepted[0]
         for other in accepted[1:]:
-            if other != first and pykey(other) == pykey(first) and first[0] in ("int", "float", "bool"):
+            if other != first and pykey(other, self.prog) == pykey(first, self.prog) and (first[0] in ("int", "float", "bool", "enum") or other[0] == "enum"):
                 # e.g. Union[float, int] given 1: both accept, values are ==; which class is
                 # returned is left open here and decided by C13's differential oracle
                 raise Unspecified("numerically equal alternatives of different classes")
@@ -862,6 +867,10 @@ class Unordered(list):
     """JSON array whose order is not specified (image of a set)."""
 
 
+class UnorderedDict(dict):
+    """JSON object whose key order is not specified (image of a Mapping, canon sorts its items)."""
+
+
 class SerOpts:
     def __init__(self, aliaser="id", exclude_none=False, exclude_defaults=False, exclude_unset=True,
                  additional_properties=False, **_):
@@ -1045,7 +1054,7 @@ def _ser(self, t: dict, v, top=False):
             tag = "dict"
         if tag != "dict":
             raise Mismatch
-        out = {}
+        out = UnorderedDict()
         for kc, vc in v[1]:
             key = self.ser(t["key"], kc)
             if not isinstance(key, str):
@@ -1085,7 +1094,7 @@ def _ser_any(self, v):
     if tag in ("set", "frozenset"):
         return Unordered(self.ser_any(x) for x in v[1])
     if tag == "dict":
-        out = {}
+        out = UnorderedDict()
         for kc, vc in v[1]:
             key = self.ser_any(kc)
             if not isinstance(key, str):
@@ -1153,6 +1162,8 @@ def _ser_object(self, t: dict, v):
             sub = self.ser(ft, val)
             if not isinstance(sub, dict):
                 raise Unspecified("aggregate field image is not an object")
+            if isinstance(sub, UnorderedDict) and not isinstance(out, UnorderedDict):
+                out = UnorderedDict(out)  # keys merged from a mapping have no specified order
             for kk, vv in sub.items():
                 out[kk] = vv
     if td and o.additional_properties:
@@ -1190,6 +1201,8 @@ def json_eq(expected, got) -> bool:
         return True
     if isinstance(expected, list):
         return got.__class__ is list and len(got) == len(expected) and all(json_eq(e, g) for e, g in zip(expected, got))
+    if isinstance(expected, UnorderedDict):
+        return got.__class__ is dict and set(expected) == set(got) and all(json_eq(expected[k], got[k]) for k in expected)
     if isinstance(expected, dict):
         return got.__class__ is dict and list(expected) == list(got) and all(json_eq(expected[k], got[k]) for k in expected)
     if isinstance(expected, bool) or isinstance(got, bool):
